@@ -1036,7 +1036,12 @@ func markRegexSites(s []site) {
 
 // ------------------------------------------------------------------ hostile strings
 
+// round 5: long values (a precision such as %.40s, a fixed-size buffer or a "first n bytes" shortcut cuts an escaped literal open)
+var longQuote = strings.Repeat("x", 70) + "'"
+var longEsc = strings.Repeat("\\'", 45)
+
 var atoms = []string{
+	longQuote, longEsc,
 	"'", "''", "\\", "\\\\", "\\'", "'\\", "\x00", "\n", "\r", "\b", "\t", "\x1a", "--", "/*", "*/", "#", "# ",
 	"%", "_", "\\%", "\\_", "\"", "`", ";", ")", "(", ",", " ", "$$", "\\x27", "\\N", "\\0",
 	"\xff", "\xc0'", "\xe2\x80", "\xc3", "é", "漢", "’", "ʼ", "😀", "\xef\xbc\x87",
